@@ -220,7 +220,10 @@ func MarshalToFunc[T any](fn func(*jsontext.Encoder, T) error) *Marshalers {
 			prevDepth, prevLength := xe.Tokens.DepthLength()
 			xe.Flags.Set(jsonflags.WithinArshalCall | 1)
 			v, _ := reflect.TypeAssert[T](va.castTo(t))
+			prevFloor := xe.Tokens.Floor
+			xe.Tokens.Floor = len(xe.Tokens.Stack) // the function may not close the enclosing object or array
 			err := fn(enc, v)
+			xe.Tokens.Floor = prevFloor
 			xe.Flags.Set(jsonflags.WithinArshalCall | 0)
 			currDepth, currLength := xe.Tokens.DepthLength()
 			if err == nil && (prevDepth != currDepth || prevLength+1 != currLength) {
@@ -307,7 +310,10 @@ func UnmarshalFromFunc[T any](fn func(*jsontext.Decoder, T) error) *Unmarshalers
 			}
 			xd.Flags.Set(jsonflags.WithinArshalCall | 1)
 			v, _ := reflect.TypeAssert[T](va.castTo(t))
+			prevFloor := xd.Tokens.Floor
+			xd.Tokens.Floor = len(xd.Tokens.Stack) // the function may not close the enclosing object or array
 			err := fn(dec, v)
+			xd.Tokens.Floor = prevFloor
 			xd.Flags.Set(jsonflags.WithinArshalCall | 0)
 			currDepth, currLength := xd.Tokens.DepthLength()
 			if err == nil && (prevDepth != currDepth || prevLength+1 != currLength) {
